@@ -169,6 +169,8 @@ type ntsPeer struct {
 	keLens   []int64 // cookies the next key exchange hands out
 	c2s, s2c []byte
 	nKE      int
+	refuse   int           // number of exchanges still to be refused
+	refuseAs int           // 5 error record, 6 unknown critical record, 7 truncated cookie record
 	stall    int           // after the handshake and the request: 1 send nothing, 2 half a record, 3 a byte per second
 	release  chan struct{} // closed when stalled connections may go
 	server   []byte        // Server record of the next key exchange (nil: the peer's address)
@@ -209,8 +211,17 @@ func (p *ntsPeer) handleKE(conn *tls.Conn) {
 	lens := p.keLens
 	server, port := p.server, p.port
 	stall, release := p.stall, p.release
+	refuseAs := 0
+	if p.refuse > 0 {
+		p.refuse--
+		refuseAs = p.refuseAs
+	}
 	p.nKE++
 	p.mu.Unlock()
+	if refuseAs != 0 {
+		conn.Write(refusal(refuseAs))
+		return
+	}
 	if stall != 0 {
 		conn.SetDeadline(time.Now().Add(90 * time.Second))
 		full := []byte{0x80, 1, 0, 2, 0, 0, 0x80, 4, 0, 2, 0, 15, 0, 5, 0, 124}
@@ -255,6 +266,17 @@ func (p *ntsPeer) handleKE(conn *tls.Conn) {
 		return
 	}
 	conn.Write(b.Bytes())
+}
+
+// refusal is what a key-exchange peer sends to turn an exchange down after the handshake.
+func refusal(kind int) []byte {
+	switch kind {
+	case 5:
+		return []byte{0x80, 2, 0, 2, 0, 1} // error record: bad request
+	case 6:
+		return []byte{0x80, 0x63, 0, 2, 0, 0} // unknown critical record
+	}
+	return []byte{0x80, 1, 0, 2, 0, 0, 0x80, 4, 0, 2, 0, 15, 0, 5, 0, 124, 1, 2, 3} // a cookie record cut short, then the stream ends
 }
 
 // ntsReply builds the reply to an NTS request: mode 0 honest; the cookies sealed inside have the
@@ -588,6 +610,8 @@ func runClient(e *netEnv, j job, a []val) string {
 		return runClientKEStall(e, a)
 	case "cli.kestallquic":
 		return runClientKEStallQUIC(e, a)
+	case "cli.kefdleak":
+		return runKEFDLeak(e, a)
 	}
 	return "0 []"
 }
